@@ -1,6 +1,7 @@
 import QV.Model.Codec
 import QV.Proofs.Codec
 import QV.Props.C09
+import QV.Proofs.EndToEnd05
 /-!
 # C05 – Values survive the encode → circuit → decode round trip
 
@@ -416,5 +417,176 @@ theorem pad_in_place_witness :
     formatOutcomeArgAfter { formatOutcomePadsInPlace := true } [true] (some 4) = [true, false, false, false]
     ∧ formatOutcomeArgAfter Quirks.none [true] (some 4) = [true] := by
   decide
+
+end QV.C05
+
+/-! ## End to end through the compiler model
+
+`C05_statement` takes what the circuit computes as a hypothesis (`Computes`).  For the circuits the *compiler
+model* produces that hypothesis is a theorem on the decidable class `inGeneralClass` (`C02.C02_general_partial`:
+definition lists with sharing, cache hits, re-binding, several return bits).  `QV/Proofs/EndToEnd05.lean` converts
+between the two models (string names / `Name`s, `qubit_map` as `List (String × Nat)` / `QMap`, `Compiler.initState`
+/ `Codec.initState`); here the hypotheses `m.WF`, `outputQubits m … = some oq`, `Computes …` of `C05_statement`
+are discharged for every successful run of `compile`.  What is still assumed: the definition list means the
+Python function (`F ∘ encode = encode ∘ f`, C01's business). -/
+namespace QV.C05
+open QV QV.Types QV.Codec QV.C09 QV.EndToEnd05
+
+/-- the bridge in the vocabulary of this file: the compiled gate list `Computes` the function the definition
+list denotes, on the output qubits read from the view of the final `qubit_map` -/
+theorem compile_general_computes (sig : List (String × QTy)) (ret : QTy) (defs : List (String × BExp))
+    (unc : Bool) (choices : List Nat) (s : Compiler.CState)
+    (hcls : Compiler.inGeneralClass (inputBitNames sig) defs (retBitNames ret) = true)
+    (h : (Compiler.compile (inputBitNames sig) defs (some (retBitNames ret)) unc).run
+        { choices := choices } = .ok ((), s)) :
+    ∃ oq, outputQubits (compiledMap sig ret s) (retArg ret).bitvec = some oq ∧
+      (compiledMap sig ret s).WF ∧
+      oq.map some = (retBitNames ret).map (Compiler.dictGet? s.qc.qmap) ∧
+      Computes s.qc.gates.toList (compiledMap sig ret s).numQubits (sizeList (sig.map (·.2))) oq
+        (bitFun (inputBitNames sig) defs (retBitNames ret)) :=
+  compile_computes sig ret defs unc choices s hcls h
+
+/-- **C05 end to end on the general class of the compiler model.**  For every signature `sig`, return type
+`ret`, value-level function `f` and definition list `defs` (over the printed argument bit names, defining the
+printed return bit names) that
+
+* lies in the decidable class `inGeneralClass` of `C02_general_partial`, and
+* means `f` through the codecs: `bitFun … (encode vs) = encode (f vs)` for every well-typed `vs` (C01),
+
+and for **every successful run of the compiler model** on it – final uncomputation on or off, every sequence of
+ancilla choices – with final state `s`:
+
+1. `output_qubits` is defined on the final `qubit_map` (seen as a `QMap`, `compiledMap`): `oq`, and it is the
+   reading `[qubit_map[r] for r in returns.bitvec]` of the compiler's own string-keyed map;
+2. `input_qubits = [0, …, n)`;
+3. `oq` has one qubit per return bit, each a qubit of the compiled circuit;
+4. **round trip**: preparing the basis state from `encode_input(vs)`, running the COMPILED gate list, reading the
+   qubits `oq` and decoding the reading yields `f vs`;
+5. two return bits that share an output qubit carry the same value on every input.
+
+These are the conclusions of `C05_statement` with its hypotheses about the circuit (`m.WF`, `outputQubits`,
+`Computes`) proved from the compiler model instead of assumed. -/
+theorem C05_end_to_end_general (sig : List (String × QTy)) (ret : QTy) (f : List QVal → QVal)
+    (defs : List (String × BExp)) (unc : Bool) (choices : List Nat) (s : Compiler.CState)
+    (hcls : Compiler.inGeneralClass (inputBitNames sig) defs (retBitNames ret) = true)
+    (hf : ∀ vs, WTs (sig.map (·.2)) vs →
+      WT ret (f vs) ∧
+      bitFun (inputBitNames sig) defs (retBitNames ret) (encodeList (sig.map (·.2)) vs) = encode ret (f vs))
+    (h : (Compiler.compile (inputBitNames sig) defs (some (retBitNames ret)) unc).run
+        { choices := choices } = .ok ((), s)) :
+    ∃ oq : List Nat,
+      -- output qubits: defined, and what the compiler's own map says
+      (outputQubits (compiledMap sig ret s) (retArg ret).bitvec = some oq ∧
+        oq.map some = (retBitNames ret).map (Compiler.dictGet? s.qc.qmap)) ∧
+      -- input qubits: 0 .. n-1 in argument bit order
+      inputQubits (translateArguments sig) = List.range (sizeList (sig.map (·.2))) ∧
+      -- output qubits: one per return bit, in range
+      (oq.length = ret.size ∧ ∀ q ∈ oq, q < s.qc.numQubits) ∧
+      -- the round trip through the compiled gate list
+      (∀ vs, WTs (sig.map (·.2)) vs →
+        decodeOutput (retArg ret)
+          (readOut (runClassical s.qc.gates.toList (initState s.qc.numQubits
+            (encodeInput (translateArguments sig) vs))) oq) = f vs) ∧
+      -- two output bits share a qubit only if they always carry the same value
+      (∀ i j : Nat, oq[i]? = oq[j]? → ∀ x, x.length = sizeList (sig.map (·.2)) →
+        (bitFun (inputBitNames sig) defs (retBitNames ret) x)[i]?
+          = (bitFun (inputBitNames sig) defs (retBitNames ret) x)[j]?) := by
+  obtain ⟨oq, hoq, hwf, hmap, hcomp⟩ := compile_general_computes sig ret defs unc choices s hcls h
+  obtain ⟨hin, hrange, hrt, hshare⟩ :=
+    c05_round_trip sig ret f (bitFun (inputBitNames sig) defs (retBitNames ret)) s.qc.gates.toList
+      (compiledMap sig ret s) oq hf hwf hoq hcomp
+  exact ⟨oq, ⟨hoq, hmap⟩, hin, hrange, hrt, hshare⟩
+
+/-- **the argument bits sit on the input qubits of the compiled map**: when no definition re-binds an argument
+bit (decidable `C02.inputsFresh`; the general class itself allows re-binding, and then the name moves), the
+`j`-th argument bit – arguments in order, tuples depth-first – is mapped to qubit `j = input_qubits[j]` in the
+final `qubit_map` of every successful run, and there are at least `n` qubits -/
+theorem C05_end_to_end_inputs (sig : List (String × QTy)) (ret : QTy) (defs : List (String × BExp))
+    (rets : Option (List String)) (unc : Bool) (choices : List Nat) (s : Compiler.CState)
+    (hfresh : C02.inputsFresh (inputBitNames sig) defs = true)
+    (h : (Compiler.compile (inputBitNames sig) defs rets unc).run { choices := choices } = .ok ((), s)) :
+    sizeList (sig.map (·.2)) ≤ s.qc.numQubits ∧
+    ∀ (j : Nat) (hj : j < (inputSymbols (translateArguments sig)).length),
+      (compiledMap sig ret s).get (inputSymbols (translateArguments sig))[j]
+        = (inputQubits (translateArguments sig))[j]? := by
+  obtain ⟨hle, hpos⟩ := compile_inputs_on_qubits sig ret defs rets unc choices s hfresh h
+  refine ⟨hle, fun j hj => ?_⟩
+  rw [hpos j hj, input_qubits_range, List.getElem?_range (by rw [← input_symbols_length]; exact hj)]
+
+/-! ### a concrete compiled function
+
+`def g(a: Qint[2], c: bool) -> Tuple[bool, bool]: return (a == 3, (a == 3) ^ c)` as the front end hands it to
+the compiler: `_ret.0 = a.0 & a.1; _ret.1 = (a.0 & a.1) ^ c` (the sub-expression `a.0 & a.1` is shared). -/
+
+def exSig : List (String × QTy) := [("a", .qint 2), ("c", .bool)]
+def exRet : QTy := .tuple [.bool, .bool]
+def exDefs : List (String × BExp) :=
+  [("_ret.0", .and [.sym "a.0", .sym "a.1"]),
+   ("_ret.1", .xor [.and [.sym "a.0", .sym "a.1"], .sym "c"])]
+/-- the value-level function -/
+def exFun : List QVal → QVal
+  | [.int v, .bool c] => .tuple [.bool (v == 3), .bool ((v == 3) != c)]
+  | _ => .error
+
+/-- the names the compiler is called with -/
+example : inputBitNames exSig = ["a.0", "a.1", "c"] ∧ retBitNames exRet = ["_ret.0", "_ret.1"] := by
+  decide +kernel
+
+/-- the definition list is in the class -/
+theorem exDefs_in_class :
+    Compiler.inGeneralClass (inputBitNames exSig) exDefs (retBitNames exRet) = true := by decide +kernel
+
+/-- the model compiles it, final uncomputation on (ancilla choices 3, 4: three gates `CCX 0,1→3`, `CCX 0,1→4`,
+`CX 2→4` on five qubits, `_ret.0` on qubit 3, `_ret.1` on qubit 4).  Kernel evaluation of `compile`, `sortNat`
+(a `List.mergeSort`) rewritten to insertion sort first (`EndToEnd.sortNat_eq`). -/
+theorem exDefs_compiles (unc : Bool) :
+    ∃ s, (Compiler.compile (inputBitNames exSig) exDefs (some (retBitNames exRet)) unc).run
+      { choices := [3, 4] } = .ok ((), s) := by
+  have hb : ((Compiler.compile (inputBitNames exSig) exDefs (some (retBitNames exRet)) unc).run
+      { choices := [3, 4] }).toBool = true := by
+    simp only [Compiler.compile, exDefs, Compiler.compileDefs, Compiler.compileExpr, Compiler.compileArgs,
+      Compiler.compileXorArgs, EndToEnd.sortNat_eq]
+    cases unc <;> decide +kernel
+  cases hrun : (Compiler.compile (inputBitNames exSig) exDefs (some (retBitNames exRet)) unc).run
+      { choices := [3, 4] } with
+  | ok p => exact ⟨p.2, rfl⟩
+  | error e => rw [hrun] at hb; cases hb
+
+/-- the definition list means `exFun` through the codecs (all 8 well-typed argument values) -/
+theorem exDefs_means_exFun : ∀ vs, WTs (exSig.map (·.2)) vs →
+    WT exRet (exFun vs) ∧
+    bitFun (inputBitNames exSig) exDefs (retBitNames exRet) (encodeList (exSig.map (·.2)) vs)
+      = encode exRet (exFun vs) := by
+  intro vs hvs
+  match vs, hvs with
+  | [.int v, .bool c], hvs =>
+    simp only [exSig, List.map_cons, List.map_nil, WTs, WT, and_true] at hvs
+    match v, hvs with
+    | 0, _ => cases c <;> exact ⟨by simp [exRet, exFun, WT, WTs], by decide +kernel⟩
+    | 1, _ => cases c <;> exact ⟨by simp [exRet, exFun, WT, WTs], by decide +kernel⟩
+    | 2, _ => cases c <;> exact ⟨by simp [exRet, exFun, WT, WTs], by decide +kernel⟩
+    | 3, _ => cases c <;> exact ⟨by simp [exRet, exFun, WT, WTs], by decide +kernel⟩
+    | n + 4, h => exact absurd h.2 (by omega)
+
+/-- non-vacuity of `C05_end_to_end_general`: every hypothesis holds for `exDefs` (class membership, the meaning
+through the codecs, a successful run of the model with uncomputation on and off), so the COMPILED circuit
+round-trips: e.g. `g(3, True)` – `encode_input` gives `"111"`, the five-qubit circuit is run, the reading of
+`output_qubits` decodes to `(True, False)` -/
+example (unc : Bool) : ∃ s oq,
+    (Compiler.compile (inputBitNames exSig) exDefs (some (retBitNames exRet)) unc).run
+      { choices := [3, 4] } = .ok ((), s) ∧
+    outputQubits (compiledMap exSig exRet s) (retArg exRet).bitvec = some oq ∧
+    oq.length = 2 ∧
+    decodeOutput (retArg exRet)
+      (readOut (runClassical s.qc.gates.toList (initState s.qc.numQubits
+        (encodeInput (translateArguments exSig) [.int 3, .bool true]))) oq)
+      = .tuple [.bool true, .bool false] := by
+  obtain ⟨s, hs⟩ := exDefs_compiles unc
+  obtain ⟨oq, ⟨hoq, _⟩, _, ⟨hlen, _⟩, hrt, _⟩ :=
+    C05_end_to_end_general exSig exRet exFun exDefs unc [3, 4] s exDefs_in_class exDefs_means_exFun hs
+  exact ⟨s, oq, hs, hoq, hlen, hrt [.int 3, .bool true] (by simp [exSig, WTs, WT])⟩
+
+/-- the arguments of `exDefs` are never re-bound: `C05_end_to_end_inputs` applies -/
+example : C02.inputsFresh (inputBitNames exSig) exDefs = true := by decide +kernel
 
 end QV.C05
